@@ -2,7 +2,7 @@
    Directives used: those of ExtrOcamlBasic (bool, option, unit, list, prod, sumbool, comparison -> OCaml natives)
    and of ExtrOcamlString (ascii -> char, string -> char list).  nat, positive, N, Z stay extracted inductives. *)
 From Coq Require Import ExtrOcamlBasic ExtrOcamlString.
-From SV Require Import Quote Quote51 QuoteX QuoteMore Bracket Number Expr Parens DiffJson DiffUnified Sched CliModel SortReq CfgSearch Select Lex Census Trivia.
+From SV Require Import Quote Quote51 QuoteX QuoteMore Bracket Number Expr Parens DiffJson DiffUnified Sched CliModel SortReq CfgSearch Select Lex Census Trivia CallForm.
 Extraction Language OCaml.
 Cd "../.cache/ml".
 Separate Extraction
@@ -20,5 +20,6 @@ Separate Extraction
   SortReq.sort_requires SortReq.str_leb SortReq.groups
   CfgSearch.run CfgSearch.spec CfgSearch.resolve Select.processed Select.wanted
   Lex.lex Census.census Census.census_eq Census.first_missing Census.erase Census.ws_check Census.str_den
-  Trivia.lead Trivia.trail Trivia.fmt_comment.
+  Trivia.lead Trivia.trail Trivia.fmt_comment
+  CallForm.call_form CallForm.form_ok CallForm.space_definition CallForm.space_call.
 Cd "../../coq".
